@@ -109,6 +109,9 @@ class Registry:
     def loop_spec(self, fi, ordinal):
         if fi is None or ordinal is None:
             return None
+        rl = getattr(self, "rel_loops", None)
+        if rl and fi.qualname in rl:
+            return rl[fi.qualname].get(ordinal)
         c = self.contracts.get(fi.qualname)
         if c is None or not c["loops"]:
             # inherited method verified through a subclass: the subclass contract carries the loop specifications
